@@ -42,7 +42,7 @@ type relistRun struct {
 	nchecks  int
 }
 
-var watchModes = []string{"healthy", "never-connects", "connect-hangs", "closes", "drops", "duplicates", "frames", "mixed", "replays", "overflow"}
+var watchModes = []string{"healthy", "never-connects", "connect-hangs", "closes", "drops", "duplicates", "frames", "mixed", "replays", "overflow", "unversioned"}
 
 func runRelist(c *Ctx, r *relistRun) {
 	r.deadlock = sched.Bubble(c.T, func() {
@@ -61,6 +61,7 @@ func runRelist(c *Ctx, r *relistRun) {
 		}
 		srv.Set(1, 1, labSets[1], 1)
 		srv.Set(1, 2, labSets[0], 1)
+		srv.Unversioned = r.mode == "unversioned"
 		var ct *ctl
 		var slow atomic.Bool
 		if r.mode == "overflow" {
@@ -341,7 +342,7 @@ func runC03(c *Ctx) {
 		}
 		c.Stat("stale_buffer_runs", 1)
 	}
-	c.Rep.Rule = "whole controller against the fake API server in a synctest bubble (virtual time): seeded random server histories over 2 namespaces x 3 names in three phases; refresh periods {2s,7s}; list latency {0, 1/2, 3/2} period; controller filters {none, Labels, Not(NSName)}; watch behaviour {healthy, never connects, connect hangs until cancelled, closes after every 2 events, drops events, duplicates events, status/bookmark frames, mixed, replays old history (also on a quiet server, where the next list carries an unchanged resourceVersion), bursts of 220-320 changes against a slow controller (the session's and the watcher's buffers overflow and events are lost)}; 4 levels of logger-driven schedule perturbation. With the watch out of action: after every completed list cache = that list's accepted objects. After each phase: once a list that started after the server quiesced completes, cache = server's accepted objects, subscriber mirror = cache with well-formed strictly-newer events, no event before Ready, Close returns. Plus a targeted scenario: a watch event that the next list contradicts sits in the watcher's buffer while the controller is busy (slow filter) and the stream stalls; after that list cache = list. The converged cache is compared with the extracted model's relist_outcome. Non-trivial = run with >= 3 lists."
+	c.Rep.Rule = "whole controller against the fake API server in a synctest bubble (virtual time): seeded random server histories over 2 namespaces x 3 names in three phases; refresh periods {2s,7s}; list latency {0, 1/2, 3/2} period; controller filters {none, Labels, Not(NSName)}; watch behaviour {healthy, never connects, connect hangs until cancelled, closes after every 2 events, drops events, duplicates events, status/bookmark frames, mixed, replays old history (also on a quiet server, where the next list carries an unchanged resourceVersion), bursts of 220-320 changes against a slow controller (the session's and the watcher's buffers overflow and events are lost), lists that carry no collection resourceVersion}; 4 levels of logger-driven schedule perturbation. With the watch out of action: after every completed list cache = that list's accepted objects. After each phase: once a list that started after the server quiesced completes, cache = server's accepted objects, subscriber mirror = cache with well-formed strictly-newer events, no event before Ready, Close returns. Plus a targeted scenario: a watch event that the next list contradicts sits in the watcher's buffer while the controller is busy (slow filter) and the stream stalls; after that list cache = list. The converged cache is compared with the extracted model's relist_outcome. Non-trivial = run with >= 3 lists."
 	c.Rep.Stats["runs"] = runs
 }
 
@@ -475,8 +476,8 @@ func runFail(c *Ctx, r *failRun, seed int64, level int) {
 }
 
 func runC14(c *Ctx) {
-	kinds := []fakeapi.ListKind{fakeapi.ListErr, fakeapi.ListNonList, fakeapi.ListNoItems, fakeapi.ListNonObjects, fakeapi.ListErrCanceled}
-	kindCode := map[fakeapi.ListKind]int{fakeapi.ListErr: 1, fakeapi.ListNonList: 2, fakeapi.ListNoItems: 3, fakeapi.ListNonObjects: 4, fakeapi.ListErrCanceled: 1}
+	kinds := []fakeapi.ListKind{fakeapi.ListErr, fakeapi.ListNonList, fakeapi.ListNoItems, fakeapi.ListNonObjects, fakeapi.ListErrCanceled, fakeapi.ListErrTooMany, fakeapi.ListErrSrvTimeout, fakeapi.ListErrTimeout}
+	kindCode := map[fakeapi.ListKind]int{fakeapi.ListErr: 1, fakeapi.ListNonList: 2, fakeapi.ListNoItems: 3, fakeapi.ListNonObjects: 4, fakeapi.ListErrCanceled: 1, fakeapi.ListErrTooMany: 1, fakeapi.ListErrSrvTimeout: 1, fakeapi.ListErrTimeout: 1}
 	runs := 0
 	emit := func(r *failRun, what string) {
 		runs++
@@ -595,7 +596,7 @@ func runC14(c *Ctx) {
 			}
 		}
 	}
-	c.Rep.Rule = "whole controller (with a tree of a subscription, a clone with a filtered subscription, a for-filter clone and a monitor attached) against the fake API server in virtual time: every list failure kind {List error, object that is not a list, list type without items, list of non-objects} injected at the k-th list (k=1..3/4) under {healthy watch, connect errors, stream closes}; and no list failure with every watch failure kind {connect errors, always failing, stream closes, status/bookmark/unknown frames} with triggers {none, Close, context cancel}. Observed: Ready, Done, Error (cause by identity), descendants' Done; compared with the extracted controller model (krun) on the same input sequence. Non-trivial = every scenario (each has a distinct expected outcome); distinct by scenario."
+	c.Rep.Rule = "whole controller (with a tree of a subscription, a clone with a filtered subscription, a for-filter clone and a monitor attached) against the fake API server in virtual time: every list failure kind {List error, context.Canceled as an error, Kubernetes Status errors 429 TooManyRequests / ServerTimeout / 504 Timeout, object that is not a list, list type without items, list of non-objects} injected at the k-th list (k=1..3/4) under {healthy watch, connect errors, stream closes}; and no list failure with every watch failure kind {connect errors, always failing, stream closes, status/bookmark/unknown frames} with triggers {none, Close, context cancel}. Observed: Ready, Done, Error (cause by identity), descendants' Done; compared with the extracted controller model (krun) on the same input sequence. Non-trivial = every scenario (each has a distinct expected outcome); distinct by scenario."
 	c.Rep.Stats["runs"] = runs
 	c.Sample(map[string]interface{}{"scenario": "list error at list 2", "expected": "Done closed, Error cause = injected error, ready stays true, subtree done"})
 }
